@@ -626,6 +626,8 @@ pub fn def() -> CheckDef {
             // adaptive-fee pools with the full range of valid constants (filter / decay periods up to hours) and elapsed-time
             // classes around the filter period, the decay period and the one-hour reference reset (generator shared with C14)
             sub("adaptive_sequences", 1_000_000, 30_000_000, super::c14::adaptive_case, |c: &SimCase, l: &mut Local| check_sim(c, l)),
+            // the public quote functions against executed instructions on states reached by generated histories
+            sub("quotes_vs_instructions", 16_000, 600_000, super::c20q::case_strategy, |c: &super::c20q::QuoteCase, l: &mut Local| super::c20q::check_case(c, l)),
         ],
     }
 }
